@@ -44,10 +44,10 @@ type Run struct {
 	Level string
 	start time.Time
 
-	mu         sync.Mutex
-	known      map[string]Finding
-	knownSeen  map[string]int
-	violations []violation
+	mu          sync.Mutex
+	known       map[string]Finding
+	knownSeen   map[string]int
+	violations  []violation
 	Assumptions []string
 }
 
